@@ -228,6 +228,9 @@ QueryIdsOK ==
             \* a request is found again from its identifier (context, issue height, position in the issue event)
             /\ q.q = "request_by_events" => WantOK(ev'.obs, q)
 
+\* the prefix scans behind the listing queries return exactly the records of their subject (C18's last clause)
+IsScan(q) == q.q \in {"bindings", "requests", "requests_by_ctx", "responses"}
+
 \* queries that list bindings (C15's listing clause)
 IsListing(q) == q.q = "bindings"
 
@@ -310,7 +313,7 @@ Holds(p) ==
       [] p = "C15" -> Inv_C15' /\ Step_C15 /\ NoAnomaly("C15") /\ QueriesOK(IsListing)
       [] p = "C16" -> Inv_C16' /\ Step_C16
       [] p = "C17" -> QueriesOK(LAMBDA q : TRUE)
-      [] p = "C18" -> NoAnomaly("C18") /\ Step_C18 /\ QueryIdsOK
+      [] p = "C18" -> NoAnomaly("C18") /\ Step_C18 /\ QueryIdsOK /\ QueriesOK(IsScan)
       [] p = "C19" -> Step_C19 /\ GenesisOK /\ (ev'.name = "Restart" => ev'.ok)
       [] p = "C20" -> Step_C20
       [] OTHER -> TRUE
